@@ -24,29 +24,31 @@ Theorem C04_as_much_as_possible_refuted : dir_neg DAsMuch = Some false.
 Proof. exact as_much_refuted. Qed.
 Print Assumptions C04_as_much_as_possible_refuted.
 
-(* for the forms without an aggregate (with variable, with clause, with comparison), on an admissible interpretation, the cost the
-   emitted weak constraint contributes at its level is the stated quantity with the stated direction.
-   PARTIAL: the aggregate forms (PAggAll, PAggPerRoom) are covered by the exhaustive oracle only. *)
-Theorem C04_cost_is_quantity_partial :
-  forall sp I p w, adm sp I -> NoDup (Aggregate.shelf_ids (world sp)) -> simple_form (pf_form p) = true -> pf_dir p <> DAsMuch ->
+(* on an admissible interpretation, the cost the emitted weak constraint contributes at its level is the stated quantity with
+   the stated direction - for EVERY preference form (with aggregate: global or per room; with variable; with clause; with
+   comparison), every phrase, every priority; 'as much as possible' excluded (refuted above: known finding) *)
+Theorem C04_cost_is_quantity :
+  forall sp I p w, adm sp I -> NoDup (Aggregate.shelf_ids (world sp)) -> form_ok (pf_form p) = true -> pf_dir p <> DAsMuch ->
     compile_pref p = Some w ->
     w_level w = rank (pf_prio p) /\ Agg.agg_value Agg.ASum (wc_elements sp I w) = Agg.EFin (directed sp I p).
-Proof. exact simple_cost. Qed.
-Print Assumptions C04_cost_is_quantity_partial.
+Proof. exact pref_cost. Qed.
+Print Assumptions C04_cost_is_quantity.
 
 (* optimality by the emitted weak constraints (gringo/clasp semantics: distinct (weight, tuple) elements summed per level, levels
-   compared from the highest down) is optimality by the READING (lexicographic by priority on the stated quantities), for any
-   number of rooms and shelves, any candidate space, any number of preferences with pairwise distinct priorities.
-   PARTIAL: forms without an aggregate; 'as much as possible' excluded (refuted above). *)
-Theorem C04_optimal_partial :
+   compared from the highest down) IS optimality by the READING (lexicographic by priority on the stated quantities): any number of
+   rooms and shelves, any candidate space, any number of preferences of any form with pairwise distinct priorities.
+   (wf_pspec: shelf ids distinct, priorities pairwise distinct, no 'as much as possible' - the known finding -, no aggregate over
+   the weight column, which the sentence forms cannot express.) *)
+Theorem C04_optimal :
   forall sp ws space I, wf_pspec sp -> compile_prefs sp = Some ws -> wc_optimal_in sp ws space I = optimal_in sp space I.
 Proof. exact wc_optimal_is_reading_optimal. Qed.
-Print Assumptions C04_optimal_partial.
+Print Assumptions C04_optimal.
 
 (* the hypotheses are satisfiable *)
 Example C04_wf_example :
   let sp := {| p_rooms := 2; p_shelves := [(1, 3); (2, 3)]; p_lb := None; p_ub := Some 1%nat;
                p_prefs := [ {| pf_form := PVar Aggregate.KWeight; pf_dir := DMaximized; pf_prio := PHigh |};
+                            {| pf_form := PAggPerRoom Agg.ASum; pf_dir := DMinimized; pf_prio := PMedium |};
                             {| pf_form := PCmp Aggregate.KShelf "greater than" 1; pf_dir := DAsLittle; pf_prio := PLow |} ] |} in
   wf_pspec sp /\ exists ws, compile_prefs sp = Some ws.
 Proof.
@@ -54,6 +56,6 @@ Proof.
   - split; [|split].
     + repeat constructor; cbn; intuition congruence.
     + repeat constructor; cbn; intuition congruence.
-    + intros p [<-|[<-|[]]]; split; try reflexivity; discriminate.
+    + intros p [<-|[<-|[<-|[]]]]; split; try reflexivity; discriminate.
   - eexists. vm_compute. reflexivity.
 Qed.
